@@ -52,6 +52,7 @@ SourceKept == (IsCopyOp /\ Succeeded /\ last.op # "mv" /\ ~last.ow /\ ContentAt(
 \* with overwrite, truncated)
 FailureChangesNothing == (IsCopyOp /\ ~last.ok) =>
    \/ S = prev
+   \/ (last.op \in {"ln", "mv"} /\ \A f \in Files, p \in U : ContentAt(S, f, p) \in {ContentAt(prev, f, p), 0})   \* only empty parent groups appeared
    \/ (prev.root[last.df] = 0 \/ last.ow) /\ \A p \in U : ContentAt(S, last.df, p) = (IF Len(p) = 0 THEN 0 ELSE -1)
 \* frame condition at the object level: no existing object changes its content and no existing link is
 \* changed or removed - except the one link named by the operation (destination of create, source of mv),
